@@ -278,9 +278,17 @@ class State:
         parts = var_attr_name.split(".")
         if len(parts) != 3:
             raise NameError(f"invalid name {var_attr_name} (should be 'domain.entity.attr')")
-        if not cls.exist(f"{parts[0]}.{parts[1]}"):
-            raise NameError(f"state {parts[0]}.{parts[1]} doesn't exist")
-        cls.set(f"{parts[0]}.{parts[1]}", **{parts[2]: value})
+        var_name = f"{parts[0]}.{parts[1]}"
+        if not cls.exist(var_name):
+            raise NameError(f"state {var_name} doesn't exist")
+        #
+        # pass the attributes explicitly: an attribute may be called "value", "new_attributes"
+        # or "context", which are parameters of set()
+        #
+        state_value = cls.hass.states.get(var_name)
+        new_attributes = state_value.attributes.copy() if state_value else {}
+        new_attributes[parts[2]] = value
+        cls.set(var_name, new_attributes=new_attributes)
 
     @classmethod
     async def register_persist(cls, var_name):
